@@ -217,19 +217,32 @@ func (t *Task) Schedule(executeAt time.Time) *Task {
 	t.lock.Lock()
 	defer t.lock.Unlock()
 
+	if executeAt.IsZero() {
+		// Cancel the scheduled execution only: a task that is waiting in a
+		// queue stays there, together with the schedule entry that stands for
+		// its max delay.
+		scheduleLock.Lock()
+		queuedWithMaxDelay := t.overtime
+		if !queuedWithMaxDelay && t.scheduleListElement != nil {
+			taskSchedule.Remove(t.scheduleListElement)
+			t.scheduleListElement = nil
+		}
+		scheduleLock.Unlock()
+		if !queuedWithMaxDelay {
+			t.executeAt = executeAt
+		}
+		return t
+	}
+
 	t.executeAt = executeAt
 
-	if executeAt.IsZero() {
-		t.removeFromQueues()
-	} else {
-		// The schedule entry now stands for the given time, not for the
-		// expiry of the max delay of a queued task anymore.
-		scheduleLock.Lock()
-		t.overtime = false
-		scheduleLock.Unlock()
+	// The schedule entry now stands for the given time, not for the
+	// expiry of the max delay of a queued task anymore.
+	scheduleLock.Lock()
+	t.overtime = false
+	scheduleLock.Unlock()
 
-		t.addToSchedule(false)
-	}
+	t.addToSchedule(false)
 	return t
 }
 
